@@ -212,7 +212,10 @@ def clause_point(g: Any, p: list[float], c: V, k: int, state: dict) -> np.ndarra
         if U2 is not None:
             M2 = _np(U2)
             if M2.shape != M.shape or np.abs(M2 - M).max() > 1e-10 * (1 + l1):
-                if M2.shape == M.shape and not _continuous_at(g, p, M):
+                if M2.shape == M.shape and (
+                    not _continuous_at(g, p, M)
+                    or np.abs(M2 - M).max() <= 1e-13 * _sensitivity(g, p, M)
+                ):
                     # get_unitary itself jumps at this point (e.g. the polar
                     # projection of a numerically singular matrix): two
                     # evaluations of the same formula need not agree -- no verdict
@@ -261,6 +264,21 @@ def _continuous_at(g: Any, p: list[float], M: np.ndarray) -> bool:
             if m is None or np.abs(m - M).max() > 1e-4:
                 return False
     return True
+
+
+def _sensitivity(g: Any, p: list[float], M: np.ndarray) -> float:
+    """max_i |U(p + d e_i) - U(p)| / d: how strongly get_unitary amplifies a
+    perturbation of its input at p.  Rounding noise of relative size 1e-16
+    in the intermediate matrices is amplified by the same factor, so two
+    algebraically equal evaluations may legitimately differ by that much."""
+    worst = 1.0
+    for i in range(min(len(p), 8)):
+        q = list(p)
+        q[i] += 1e-7
+        m = _U(g, q)
+        if m is not None:
+            worst = max(worst, float(np.abs(m - M).max()) / 1e-7)
+    return worst
 
 
 def _U(g: Any, p: Any) -> np.ndarray | None:
